@@ -182,7 +182,7 @@ Proof.
   pose proof (hdr_range (count s)). pose proof (hdr_range (count s + 1)). unfold map_hdr in *.
   set (c1 := fixed s + hdr (count s + 1) + entries_size (rest s) + (4 + (hdr g + g))).
   destruct (hdr g + hdr (count s + 1) =? 3 + hdr (count s)) eqn:?.
-  - assert (c1 = E) as -> by (unfold c1, g; lia). rewrite N.eqb_refl. reflexivity.
+  - assert (c1 = E) as -> by (unfold c1, g in *; lia). rewrite N.eqb_refl. reflexivity.
   - destruct (c1 =? E) eqn:?; [unfold c1, g in *; lia|].
     pose proof (hdr_mono (count s) (count s + 1)).
     destruct (E <? c1 + 7) eqn:?; [reflexivity | unfold c1, g in *; lia].
